@@ -57,6 +57,8 @@ struct FabricInner {
     reorder_delay_us: u64,
     keep_log: bool,
     trace: bool,
+    /// (src node, datagrams still to go, notifier): fires when src has sent that many more datagrams
+    triggers: Vec<(usize, usize, Option<tokio::sync::oneshot::Sender<()>>)>,
     seen_scids: HashSet<Vec<u8>>,
     drivers: HashMap<usize, Vec<tokio::task::AbortHandle>>,
 }
@@ -166,6 +168,16 @@ impl quinn::AsyncUdpSocket for SockState {
             ch.observe(&rec);
         }
         let delivered = dst.is_some() && !link_down && fate != Fate::Drop;
+        for t in g.triggers.iter_mut() {
+            if t.0 == self.node && t.1 > 0 {
+                t.1 -= 1;
+                if t.1 == 0 {
+                    if let Some(tx) = t.2.take() {
+                        let _ = tx.send(());
+                    }
+                }
+            }
+        }
         if g.trace {
             eprintln!("dg t={}us {}->{} len={} first={:02x} {:?}", t_us, self.node, dst_node as i64, t.contents.len(), t.contents[0], fate);
         }
@@ -355,6 +367,7 @@ impl Fabric {
                 fate_pair: None,
                 reorder_delay_us: 3 * default_latency_us + 1000,
                 keep_log: true,
+                triggers: vec![],
                 trace: std::env::var("VERIF_TRACE_DG").is_ok(),
                 seen_scids: HashSet::new(),
                 drivers: HashMap::new(),
@@ -446,6 +459,15 @@ impl Fabric {
     }
     pub fn set_keep_log(&self, keep: bool) {
         self.inner.lock().unwrap().keep_log = keep;
+    }
+    /// Resolves right after `node` has sent `after` more datagrams (`after` >= 1).
+    pub fn arm_trigger(&self, node: usize, after: usize) -> tokio::sync::oneshot::Receiver<()> {
+        let (tx, rx) = tokio::sync::oneshot::channel();
+        self.inner.lock().unwrap().triggers.push((node, after.max(1), Some(tx)));
+        rx
+    }
+    pub fn sent_by(&self, node: usize) -> usize {
+        self.inner.lock().unwrap().log.iter().filter(|d| d.src == node).count()
     }
     pub fn fail_recv(&self, node: usize) {
         self.inner.lock().unwrap().fail_recv.insert(node);
